@@ -270,6 +270,12 @@ Proof.
   f_equal. apply IH. intros y Hy. apply H. right. assumption.
 Qed.
 
+Lemma filter_none {A} (f : A -> bool) l : (forall x, In x l -> f x = false) -> filter f l = [].
+Proof.
+  induction l as [|x l IH]; intros H; [reflexivity|]. cbn. rewrite (H x) by (left; reflexivity).
+  apply IH. intros y Hy. apply H. right. assumption.
+Qed.
+
 Lemma mem_str_refl_all l : forallb (fun p => mem_str p l) l = true.
 Proof.
   apply forallb_forall. intros p Hp. unfold mem_str. apply existsb_exists. exists p. split; [assumption|apply str_eqb_refl].
@@ -396,6 +402,13 @@ Proof.
     change (VStr n) with (fst (VStr n, x)). apply in_map. assumption.
 Qed.
 
+Lemma hash_get_in' f es x : hash_get f es = Some x -> exists k, In (k, x) es.
+Proof.
+  induction es as [|[k0 x0] es IH]; cbn [hash_get]; [discriminate|]. destruct (f k0).
+  - intros H. inversion H; subst. exists k0. left. reflexivity.
+  - intros H. destruct (IH H) as (k & Hk). exists k. right. assumption.
+Qed.
+
 Section Detailed.
   Variable rx : str -> str -> bool.
   Notation A := (asg rx true).
@@ -430,6 +443,8 @@ Section Detailed.
                       | Some x => I (snd (snd m)) x
                       end) ms &&
     Z.eqb (zlen (filter (fun m => match hash_get (is_vstr (fst m)) es with Some _ => true | None => false end) ms)) (zlen es).
+  Proof. reflexivity. Qed.
+  Lemma inst_array e lo hi vs : I (TArray e lo hi) (VArr vs) = in_size lo hi (zlen vs) && (is_any e || forallb (I e) vs).
   Proof. reflexivity. Qed.
   Lemma inst_hash k x lo hi es :
     I (THash k x lo hi) (VHash es) = in_size lo hi (zlen es) && forallb (fun e => I k (fst e) && I x (snd e)) es.
@@ -519,3 +534,540 @@ Section Detailed.
     - (* Sensitive *) cbn. apply IHv. assumption.
   Qed.
 End Detailed.
+
+(* ---------------------------------------------------------------------------------------------- *)
+(* detailed_sound: a type that accepts the detailed type of a value has the value as an instance
+   (the by-specification rule Struct <- Hash excluded by the syntactic guard rule_free of C01) *)
+From PcoreV Require Import Proofs.LatticeRule.
+
+Section DetailedSound.
+  Variable rx : str -> str -> bool.
+  Notation A := (asg rx true).
+  Notation R := (recv rx true (asg rx true)).
+  Notation I := (inst rx true).
+  Notation D := (infer_detailed rx).
+  Notation plain := (plain).
+
+  Lemma D_plain v : plain (D v) = true.
+  Proof.
+    destruct v; try reflexivity.
+    - destruct vs; reflexivity.
+    - destruct es as [|e r]; [reflexivity|]. rewrite D_hash_cons. destruct (forallb is_named (e :: r)); reflexivity.
+  Qed.
+
+  Lemma D_nullable v : Lattice.nullable (D v) = true -> v = VUndef.
+  Proof.
+    destruct v; try reflexivity; try (cbn; discriminate).
+    - destruct vs; cbn; discriminate.
+    - destruct es as [|e r]; [cbn; discriminate|]. rewrite D_hash_cons. destruct (forallb is_named (e :: r)); cbn; discriminate.
+  Qed.
+
+  Lemma flat_plain c d : plain d = true -> flat c d = flat_recv c d.
+  Proof. destruct d; try discriminate; reflexivity. Qed.
+
+  Definition base (T : ty) : bool :=
+    match T with TAny | TUnit | TVariant _ | TOptional _ | TNotUndef _ => false | _ => true end.
+
+  Definition P (v : value) : Prop := forall T, rule_free T (D v) = true -> A T (D v) = true -> I T v = true.
+
+  (* the wrappers on the left are handled once for all values *)
+  Lemma sound_wrap v :
+    (forall T, base T = true -> rule_free T (D v) = true -> R T (D v) = true -> I T v = true) -> P v.
+  Proof.
+    intros Hbase. unfold P. pose proof (D_plain v) as Hp.
+    induction T using ty_ind'; intros Hrf Ha; rewrite (asg_plain rx true _ _ Hp) in Ha;
+      try (apply Hbase; [reflexivity|exact Hrf|exact Ha]).
+    - reflexivity.
+    - reflexivity.
+    - (* Variant *) cbn [is_any orb recv] in Ha. apply existsb_exists in Ha. destruct Ha as (t & Ht & Ha).
+      cbn [inst]. apply existsb_exists. exists t. split; [assumption|]. rewrite Forall_forall in H. apply H; auto.
+      unfold rule_free in *. cbn [no_struct] in Hrf. apply orb_true_iff in Hrf. destruct Hrf as [Hrf|Hrf].
+      + rewrite forallb_forall in Hrf. rewrite (Hrf t Ht). reflexivity.
+      + rewrite Hrf. apply orb_true_r.
+    - (* Optional *) cbn [is_any orb recv] in Ha. apply orb_true_iff in Ha. destruct Ha as [Ha|Ha].
+      + rewrite (flat_plain _ _ Hp) in Ha.
+        assert (Hn : Lattice.nullable (D v) = true) by (destruct (D v); try discriminate; reflexivity).
+        apply D_nullable in Hn. subst. reflexivity.
+      + assert (Hi : I T v = true) by (apply IHT; assumption). destruct v; exact Hi || reflexivity.
+    - (* NotUndef *) cbn [is_any orb recv] in Ha. apply andb_true_iff in Ha. destruct Ha as [Hn Ha].
+      assert (Hi : I T v = true) by (apply IHT; assumption).
+      destruct v; try exact Hi. cbn in Hn. discriminate.
+  Qed.
+
+  Lemma walk_nil_r (J : ty -> value -> bool) ts : walk J ts [] = true.
+  Proof. destruct ts as [|t [|t' ts]]; reflexivity. Qed.
+
+  Lemma tpairs_walk ts : forall vs,
+    tpairs A ts (map D vs) = true ->
+    (forall t x, In t ts -> In x vs -> A t (D x) = true -> I t x = true) ->
+    walk I ts vs = true.
+  Proof.
+    induction ts as [|t ts IH]; intros vs Hp Hs; [reflexivity|].
+    destruct vs as [|x vs]; [apply walk_nil_r|]. destruct ts as [|t' ts].
+    - cbn in Hp. apply andb_true_iff in Hp. destruct Hp as [H0 Hall]. cbn.
+      rewrite (Hs t x) by (cbn; auto). cbn [andb]. apply forallb_forall. intros y Hy.
+      rewrite forallb_forall in Hall. apply Hs; cbn; auto. apply Hall. apply in_map. assumption.
+    - destruct vs as [|x' vs].
+      + change (A t (D x) && forallb (fun u => A u (D x)) (t' :: ts) = true) in Hp.
+        apply andb_true_iff in Hp. destruct Hp as [H0 _].
+        change (I t x && walk I (t' :: ts) [] = true). rewrite walk_nil_r, (Hs t x) by (cbn; auto). reflexivity.
+      + change (A t (D x) && tpairs A (t' :: ts) (map D (x' :: vs)) = true) in Hp.
+        apply andb_true_iff in Hp. destruct Hp as [H0 Hp].
+        change (I t x && walk I (t' :: ts) (x' :: vs) = true). rewrite (Hs t x) by (cbn; auto). cbn [andb].
+        apply IH; [exact Hp|]. intros u y Hu Hy. apply Hs; right; assumption.
+  Qed.
+
+  Lemma zlen_cons_pos {X} (x : X) r : (zlen (x :: r) =? 0) = false.
+  Proof. unfold zlen. cbn [length]. apply Z.eqb_neq. lia. Qed.
+
+  Lemma asg_mk_variant k us : A k (mk_variant us) = true -> forall u, In u us -> A k u = true.
+  Proof.
+    intros Ha u Hu. destruct us as [|u0 [|u1 us]].
+    - destruct Hu.
+    - destruct Hu as [<-|[]]. exact Ha.
+    - cbn [mk_variant] in Ha. rewrite asg_variant_r in Ha. destruct (is_any k) eqn:Ek.
+      + apply is_any_eq in Ek. subst. apply asg_any_l.
+      + cbn [orb] in Ha. rewrite forallb_forall in Ha. auto.
+  Qed.
+
+  (* member lookup in the detailed Struct type = entry lookup in the hash *)
+  Lemma find_member_smember n es : forallb is_named es = true ->
+    find_member n (map (smember rx) es) =
+    match hash_get (is_vstr n) es with
+    | Some x => Some (if A (D x) TUndef then TOptional (TStringVal n) else TStringVal n, D x)
+    | None => None
+    end.
+  Proof.
+    induction es as [|[k x] es IH]; intros Hn; [reflexivity|]. cbn [forallb] in Hn. apply andb_true_iff in Hn.
+    destruct Hn as [Hk Hn]. destruct (is_named_key rx _ Hk) as (m & Hm & Hne & Hf). cbn [fst] in Hm. subst k.
+    cbn [map hash_get is_vstr]. destruct m as [|c m]; [congruence|].
+    cbn [smember name_of find_member]. destruct (str_eqb_spec n (c :: m)) as [->|Hneq]; [reflexivity|].
+    apply IH. assumption.
+  Qed.
+
+  Lemma filter_len_le {X} (f : X -> bool) l : (length (filter f l) <= length l)%nat.
+  Proof. induction l as [|x l IH]; cbn; [lia|]. destruct (f x); cbn; lia. Qed.
+
+  Lemma struct_required_le ms : struct_required ms <= zlen ms.
+  Proof. unfold struct_required, zlen. apply Nat2Z.inj_le. apply filter_len_le. Qed.
+
+  Lemma no_hash_struct_member ms m : no_hash (TStruct ms) = true -> In m ms -> no_hash (snd (snd m)) = true.
+  Proof. cbn. rewrite forallb_forall. intros H Hm. apply H in Hm. apply andb_true_iff in Hm. tauto. Qed.
+
+  Lemma smember_key e n : fst e = VStr n -> n <> [] -> actual_key (fst (snd (smember rx e))) = TStringVal n /\ fst (smember rx e) = n.
+  Proof.
+    destruct e as [k x]. cbn [fst]. intros -> Hn. destruct n as [|c n]; [congruence|]. cbn [smember name_of fst snd].
+    split; [|reflexivity]. destruct (A (D x) TUndef); reflexivity.
+  Qed.
+
+  Ltac dead Hr :=
+    solve [ discriminate Hr
+          | repeat (match type of Hr with context [match ?x with _ => _ end] => destruct x end; try discriminate Hr) ].
+
+  Theorem detailed_sound_core : forall v, dv_ok rx v = true -> P v.
+  Proof.
+    induction v using value_ind'; intros Hok; cbn [dv_ok] in Hok; try discriminate; apply sound_wrap; intros T Hb Hrf Hr.
+    - (* Undef *) destruct T; try discriminate Hb; cbn in Hr; try (dead Hr); reflexivity.
+    - (* Default *) destruct T; try discriminate Hb; cbn in Hr; try (dead Hr); reflexivity.
+    - (* Bool *) destruct T; try discriminate Hb; cbn in Hr; try (dead Hr); try reflexivity.
+      cbn. destruct v as [x|]; [|reflexivity]. cbn in Hr. apply eqb_prop in Hr. subst. apply eqb_reflx.
+    - (* Int *) destruct T; try discriminate Hb; cbn in Hr; try (dead Hr); try reflexivity. exact Hr.
+    - (* Float *) destruct T; try discriminate Hb; cbn in Hr; try (dead Hr); try reflexivity. exact Hr.
+    - (* Str *) destruct T; try discriminate Hb; cbn in Hr; try (dead Hr); try reflexivity; cbn [inst infer_detailed infer recv] in *.
+      + exact Hr.
+      + exact Hr.
+      + destruct vs; [reflexivity|exact Hr].
+      + destruct rxs; [reflexivity|]. rewrite Hr. apply orb_true_r.
+    - (* Regexp *) destruct T; try discriminate Hb; cbn in Hr; try (dead Hr); try reflexivity. exact Hr.
+    - (* Binary *) destruct T; try discriminate Hb; cbn in Hr; try (dead Hr); reflexivity.
+    - (* Arr *) destruct vs as [|x r].
+      + (* [] *) destruct T; try discriminate Hb; cbn [infer_detailed infer recv flat flat_recv Lattice.nullable is_undef orb] in Hr; try (dead Hr).
+        * exact Hr.
+        * apply andb_true_iff in Hr. destruct Hr as [Hsz _]. rewrite inst_array.
+          change (in_size lo hi 0 && (is_any T || true) = true). rewrite orb_true_r, andb_true_r. exact Hsz.
+        * apply andb_true_iff in Hr. destruct Hr as [Hsz _]. rewrite inst_tuple, walk_nil_r, andb_true_r. exact Hsz.
+      + set (vs := x :: r) in *. rewrite forallb_forall in Hok. rewrite Forall_forall in H.
+        unfold vs in Hr, Hrf. rewrite D_arr_cons in Hr, Hrf. fold vs in Hr, Hrf.
+        destruct T; try discriminate Hb; cbn [recv flat flat_recv Lattice.nullable is_undef orb] in Hr; try (dead Hr).
+        * (* Collection *) cbn. exact Hr.
+        * (* Array *) apply andb_true_iff in Hr. destruct Hr as [Hsz Hr]. unfold vs at 1 in Hr. rewrite zlen_cons_pos in Hr.
+          cbn [orb map] in Hr. fold vs in Hr. change (forallb (A T) (map D vs) = true) in Hr.
+          cbn [inst]. change (in_size lo hi (zlen vs) && (is_any T || forallb (I T) vs) = true).
+          unfold size_sub in Hsz. unfold in_size. rewrite Hsz. cbn [andb]. apply orb_true_iff. right.
+          apply forallb_forall. intros y Hy. apply (H y Hy); [auto| |].
+          -- unfold rule_free in *. cbn [no_struct no_hash] in Hrf. apply orb_true_iff in Hrf. destruct Hrf as [->|Hrf]; [reflexivity|].
+             rewrite forallb_forall in Hrf. rewrite (Hrf (D y)) by (apply in_map; assumption). apply orb_true_r.
+          -- rewrite forallb_forall in Hr. apply Hr. apply in_map. assumption.
+        * (* Tuple *) apply andb_true_iff in Hr. destruct Hr as [Hsz Hr]. rewrite inst_tuple.
+          unfold size_sub in Hsz. unfold in_size. rewrite Hsz. cbn [andb].
+          destruct ts as [|t0 ts]; [reflexivity|]. unfold vs at 1 in Hr. rewrite zlen_cons_pos in Hr. cbn [orb] in Hr.
+          unfold vs in Hr. cbn [map] in Hr. fold vs in Hr. change (tpairs A (t0 :: ts) (map D vs) = true) in Hr.
+          apply tpairs_walk; [exact Hr|]. intros t y Ht Hy Ha. apply (H y Hy); [auto| |exact Ha].
+          unfold rule_free in *. cbn [no_struct no_hash] in Hrf. apply orb_true_iff in Hrf. destruct Hrf as [Hrf|Hrf].
+          -- rewrite forallb_forall in Hrf. rewrite (Hrf t Ht). reflexivity.
+          -- rewrite forallb_forall in Hrf. rewrite (Hrf (D y)) by (apply in_map; assumption). apply orb_true_r.
+    - (* Hash *) destruct es as [|e r].
+      + (* {} *) destruct T; try discriminate Hb; cbn [infer_detailed infer recv flat flat_recv Lattice.nullable is_undef orb] in Hr; try (dead Hr).
+        * exact Hr.
+        * apply andb_true_iff in Hr. destruct Hr as [Hsz _]. rewrite inst_hash.
+          change (in_size lo hi 0 && true = true). rewrite andb_true_r. exact Hsz.
+        * (* Struct: only by the by-specification rule *) cbn in Hrf. discriminate.
+      + set (es := e :: r) in *. bools. rename H0 into Hkeys, H3 into Hall, H2 into Hdk, H1 into Hdv.
+        rewrite forallb_forall in Hall. rewrite Forall_forall in H.
+        assert (HP : forall k x, In (k, x) es -> P k /\ P x).
+        { intros k x Hin. destruct (H _ Hin) as [Hk Hx]. specialize (Hall _ Hin). cbn [fst snd] in *.
+          apply andb_true_iff in Hall. destruct Hall. split; auto. }
+        unfold es in Hr, Hrf. rewrite D_hash_cons in Hr, Hrf. fold es in Hr, Hrf.
+        destruct (forallb is_named es) eqn:Enamed.
+        * (* detailed type: Struct *)
+          pose proof (find_member_smember) as Hfm. rewrite forallb_forall in Enamed.
+          assert (Hlen : zlen (map (smember rx) es) = zlen es) by (unfold zlen; now rewrite map_length).
+          destruct T; try discriminate Hb; cbn [recv flat flat_recv Lattice.nullable is_undef orb] in Hr; try (dead Hr).
+          -- (* Collection *) cbn [inst]. unfold size_sub in Hr. rewrite Hlen in Hr. unfold in_size.
+             pose proof (struct_required_le (map (smember rx) es)) as Hle. rewrite Hlen in Hle.
+             apply andb_true_iff in Hr. destruct Hr as [H1 H2]. apply Z.leb_le in H1, H2.
+             apply andb_true_iff. split; apply Z.leb_le; lia.
+          -- (* Hash *) apply andb_true_iff in Hr. destruct Hr as [Hsz Hr]. rewrite inst_hash.
+             unfold size_sub in Hsz. rewrite Hlen in Hsz. unfold in_size.
+             pose proof (struct_required_le (map (smember rx) es)) as Hle. rewrite Hlen in Hle.
+             apply andb_true_iff in Hsz. destruct Hsz as [H1 H2]. apply Z.leb_le in H1, H2.
+             apply andb_true_iff. split; [apply andb_true_iff; split; apply Z.leb_le; lia|].
+             apply forallb_forall. intros [k x] Hin. cbn [fst snd].
+             rewrite forallb_forall in Hr. specialize (Hr (smember rx (k, x)) (in_map _ _ _ Hin)).
+             apply andb_true_iff in Hr. destruct Hr as [Hrk Hrx].
+             destruct (is_named_key rx _ (Enamed _ Hin)) as (n & Hk & Hne & Hf). cbn [fst] in Hk. subst k.
+             destruct (smember_key (VStr n, x) n eq_refl Hne) as [Hak _]. rewrite Hak in Hrk.
+             destruct (HP _ _ Hin) as [Pk Px].
+             unfold rule_free in Hrf. cbn [no_struct no_hash] in Hrf.
+             assert (Hns : no_struct T1 = true /\ no_struct T2 = true \/ no_hash (TStruct (map (smember rx) es)) = true).
+             { apply orb_true_iff in Hrf. destruct Hrf as [Hrf|Hrf]; [left; apply andb_true_iff; exact Hrf|right; exact Hrf]. }
+             apply andb_true_iff. split.
+             ++ apply Pk; [|exact Hrk]. destruct Hns as [[Hn1 _]|Hnh]; [apply rule_free_l; assumption|apply rule_free_r; reflexivity].
+             ++ pose proof (smember_value rx (VStr n, x)) as Hsv. cbn [snd] in Hsv. rewrite Hsv in Hrx.
+                apply Px; [|exact Hrx].
+                destruct Hns as [[_ Hn2]|Hnh]; [apply rule_free_l; assumption|].
+                apply rule_free_r. rewrite <- Hsv.
+                apply (no_hash_struct_member _ _ Hnh). apply in_map. assumption.
+          -- (* Struct *) apply andb_true_iff in Hr. destruct Hr as [Hmem Hcnt]. rewrite inst_struct.
+             assert (Hnamed : forallb is_named es = true) by (apply forallb_forall; exact Enamed).
+             assert (Hnh : no_hash (TStruct (map (smember rx) es)) = true).
+             { unfold rule_free in Hrf. cbn [no_struct orb] in Hrf. exact Hrf. }
+             apply andb_true_iff. split.
+             ++ apply forallb_forall. intros m Hm. rewrite forallb_forall in Hmem. specialize (Hmem m Hm).
+                rewrite (Hfm (fst m) es Hnamed) in Hmem.
+                destruct (hash_get (is_vstr (fst m)) es) as [x|] eqn:Eg; [|exact Hmem].
+                apply andb_true_iff in Hmem. destruct Hmem as [_ Hv].
+                apply hash_get_in' in Eg. destruct Eg as (k & Hin). destruct (HP _ _ Hin) as [_ Px].
+                pose proof (smember_value rx (k, x)) as Hsv. cbn [snd] in Hsv.
+                apply Px; [|exact Hv]. apply rule_free_r. rewrite <- Hsv.
+                apply (no_hash_struct_member _ _ Hnh). apply in_map. assumption.
+             ++ rewrite Hlen in Hcnt. erewrite filter_ext; [exact Hcnt|]. intros m. cbv beta.
+                rewrite (Hfm (fst m) es Hnamed). destruct (hash_get (is_vstr (fst m)) es); reflexivity.
+        * (* detailed type: Hash of variants *)
+          destruct T; try discriminate Hb; cbn [recv flat flat_recv Lattice.nullable is_undef orb] in Hr; try (dead Hr).
+          -- cbn. exact Hr.
+          -- apply andb_true_iff in Hr. destruct Hr as [Hsz Hr]. unfold es at 1 in Hr. rewrite zlen_cons_pos in Hr. cbn [orb] in Hr.
+             apply andb_true_iff in Hr. destruct Hr as [Hrk Hrx]. rewrite inst_hash.
+             unfold size_sub in Hsz. unfold in_size. rewrite Hsz. cbn [andb].
+             unfold rule_free in Hrf. cbn [no_struct no_hash] in Hrf. rewrite orb_false_r in Hrf.
+             apply andb_true_iff in Hrf. destruct Hrf as [Hn1 Hn2].
+             apply forallb_forall. intros [k x] Hin. cbn [fst snd]. destruct (HP _ _ Hin) as [Pk Px].
+             apply andb_true_iff. split.
+             ++ apply Pk; [apply rule_free_l; assumption|]. apply (asg_mk_variant _ _ Hrk).
+                apply dedup_exact_in; [assumption|]. unfold dkeys.
+                change (D k) with ((fun e => match e with (k', _) => D k' end) (k, x)). apply in_map. assumption.
+             ++ apply Px; [apply rule_free_l; assumption|]. apply (asg_mk_variant _ _ Hrx).
+                apply dedup_exact_in; [assumption|]. unfold dvals.
+                change (D x) with ((fun e => match e with (_, x') => D x' end) (k, x)). apply in_map. assumption.
+          -- cbn in Hrf. discriminate.
+    - (* Type *) destruct T; try discriminate Hb; cbn in Hr; try (dead Hr). exact Hr.
+    - (* Sensitive *) destruct T; try discriminate Hb; cbn [infer_detailed infer recv flat flat_recv Lattice.nullable is_undef orb] in Hr; try (dead Hr). cbn [inst].
+      apply IHv; [assumption| |exact Hr]. exact Hrf.
+  Qed.
+End DetailedSound.
+
+(* ---------------------------------------------------------------------------------------------- *)
+(* detailed_complete: for a value without undef-valued hash entry, every type that has the value as an
+   instance accepts its detailed type *)
+From PcoreV Require Import Proofs.StructCount.
+
+Definition is_vundef (v : value) : bool := match v with VUndef => true | _ => false end.
+
+(* the exclusion the property names: no hash entry (at any depth) whose value is undef *)
+Fixpoint no_undef_entry (v : value) : bool :=
+  match v with
+  | VArr vs => forallb no_undef_entry vs
+  | VHash es => forallb (fun e => negb (is_vundef (snd e)) && no_undef_entry (fst e) && no_undef_entry (snd e)) es
+  | VSensitive x => no_undef_entry x
+  | _ => true
+  end.
+
+(* finite floats (finding C04/nonfinite-float-complete) *)
+Fixpoint fin_val (v : value) : bool :=
+  match v with
+  | VFloat k => in_size (- MaxF) MaxF k
+  | VArr vs => forallb fin_val vs
+  | VHash es => forallb (fun e => fin_val (fst e) && fin_val (snd e)) es
+  | VSensitive x => fin_val x
+  | _ => true
+  end.
+
+Definition is_nil {X} (l : list X) : bool := match l with [] => true | _ => false end.
+
+(* what the statement needs of T: Struct types as NewStructType/NewStructElement build them (distinct, non-empty
+   member names, key String[name] or Optional[String[name]]), and — finding C04/tuple-slots-beyond-size — no
+   Tuple with more element types than its minimum size *)
+Fixpoint cwf (t : ty) : bool :=
+  match t with
+  | TTuple ts _ lo _ => (zlen ts <=? lo) && forallb cwf ts
+  | TStruct ms =>
+      distinct (map fst ms) &&
+      forallb (fun m => negb (is_nil (fst m)) && key_ok (fst m) (fst (snd m)) && cwf (snd (snd m))) ms
+  | TArray e _ _ => cwf e
+  | THash k v _ _ => cwf k && cwf v
+  | TVariant ts => forallb cwf ts
+  | TOptional t | TNotUndef t | TSensitive t => cwf t
+  | _ => true
+  end.
+
+Section DetailedComplete.
+  Variable rx : str -> str -> bool.
+  Notation A := (asg rx true).
+  Notation R := (recv rx true (asg rx true)).
+  Notation I := (inst rx true).
+  Notation D := (infer_detailed rx).
+
+  Definition Q (v : value) : Prop := forall T, cwf T = true -> I T v = true -> A T (D v) = true.
+
+  Lemma complete_wrap v :
+    (forall T, base T = true -> cwf T = true -> I T v = true -> R T (D v) = true) -> Q v.
+  Proof.
+    intros Hbase. unfold Q. pose proof (D_plain rx v) as Hp.
+    induction T using ty_ind'; intros Hw Hi;
+      try (apply (is_any_false_recv rx true _ _ Hp); apply Hbase; [reflexivity|exact Hw|exact Hi]).
+    - apply asg_any_l.
+    - apply (is_any_false_recv rx true _ _ Hp). reflexivity.
+    - (* Variant *) cbn [inst] in Hi. apply existsb_exists in Hi. destruct Hi as (t & Ht & Hi).
+      cbn [cwf] in Hw. rewrite forallb_forall in Hw. rewrite Forall_forall in H.
+      apply (variant_intro rx true ts t Ht). apply H; auto.
+    - (* Optional *) cbn [cwf] in Hw. destruct (is_vundef v) eqn:Ev.
+      + destruct v; try discriminate. apply (is_any_false_recv rx true); reflexivity.
+      + apply optional_intro. apply IHT; [assumption|]. destruct v; try exact Hi. discriminate.
+    - (* NotUndef *) cbn [cwf] in Hw. assert (Hv : I T v = true /\ is_vundef v = false).
+      { destruct v; try discriminate; split; try exact Hi; reflexivity. }
+      destruct Hv as [Hi' Hv]. apply notundef_intro; [|apply IHT; assumption].
+      destruct (Lattice.nullable (D v)) eqn:En; [|reflexivity]. apply D_nullable in En. subst. discriminate.
+  Qed.
+
+  (* only undef has a detailed type that accepts Undef *)
+  Lemma D_accepts_undef x : A (D x) TUndef = true -> x = VUndef.
+  Proof.
+    intros Ha. rewrite (asg_plain rx true) in Ha by reflexivity.
+    destruct x; try reflexivity; try (cbn in Ha; discriminate).
+    - destruct vs; cbn in Ha; discriminate.
+    - destruct es as [|e r]; [cbn in Ha; discriminate|]. rewrite D_hash_cons in Ha.
+      destruct (forallb is_named (e :: r)); cbn in Ha; discriminate.
+  Qed.
+
+  Lemma walk_tpairs ts : forall vs,
+    (length ts <= length vs)%nat -> walk I ts vs = true ->
+    (forall t x, In t ts -> In x vs -> I t x = true -> A t (D x) = true) ->
+    tpairs A ts (map D vs) = true.
+  Proof.
+    induction ts as [|t ts IH]; intros vs Hlen Hw Hc; [reflexivity|].
+    destruct vs as [|x vs]; [cbn in Hlen; lia|]. destruct ts as [|t' ts].
+    - cbn in Hw. apply andb_true_iff in Hw. destruct Hw as [H0 Hall]. cbn.
+      rewrite (Hc t x) by (cbn; auto). cbn [andb]. apply forallb_forall. intros d Hd.
+      apply in_map_iff in Hd. destruct Hd as (y & <- & Hy). rewrite forallb_forall in Hall. apply Hc; cbn; auto.
+    - destruct vs as [|x' vs]; [cbn in Hlen; lia|].
+      change (I t x && walk I (t' :: ts) (x' :: vs) = true) in Hw. apply andb_true_iff in Hw. destruct Hw as [H0 Hw].
+      change (A t (D x) && tpairs A (t' :: ts) (map D (x' :: vs)) = true).
+      rewrite (Hc t x) by (cbn; auto). cbn [andb]. apply IH; [cbn in Hlen |- *; lia|exact Hw|].
+      intros u y Hu Hy. apply Hc; right; assumption.
+  Qed.
+
+  Lemma asg_mk_variant_intro k us : (forall u, In u us -> A k u = true) -> A k (mk_variant us) = true.
+  Proof.
+    intros H. destruct us as [|u0 [|u1 us]].
+    - cbn [mk_variant]. rewrite asg_variant_r. apply orb_true_r.
+    - apply H. left. reflexivity.
+    - cbn [mk_variant]. rewrite asg_variant_r. apply orb_true_iff. right. apply forallb_forall. exact H.
+  Qed.
+
+  Lemma key_ok_accepts n k : key_ok n k = true -> A k (TStringVal n) = true.
+  Proof.
+    destruct k; try discriminate; cbn [key_ok].
+    - intros H. apply str_eqb_eq in H. subst. apply (is_any_false_recv rx true); [reflexivity|]. cbn. apply str_eqb_refl.
+    - destruct k; try discriminate. intros H. apply str_eqb_eq in H. subst.
+      apply (is_any_false_recv rx true); [reflexivity|]. cbn [recv].
+      assert (Hs : A (TStringVal n) (TStringVal n) = true)
+        by (apply (is_any_false_recv rx true); [reflexivity|]; cbn; apply str_eqb_refl).
+      rewrite Hs. apply orb_true_r.
+  Qed.
+
+  Ltac dead Hi :=
+    solve [ discriminate Hi
+          | repeat (match type of Hi with context [match ?x with _ => _ end] => destruct x end; try discriminate Hi) ].
+
+  Definition cv_ok (v : value) : bool := dv_ok rx v && no_undef_entry v && fin_val v.
+
+  Lemma cv_ok_split v : cv_ok v = true -> dv_ok rx v = true /\ no_undef_entry v = true /\ fin_val v = true.
+  Proof. unfold cv_ok. intros H. apply andb_true_iff in H. destruct H as [H H3]. apply andb_true_iff in H. tauto. Qed.
+
+  Lemma cv_ok_join v : dv_ok rx v = true -> no_undef_entry v = true -> fin_val v = true -> cv_ok v = true.
+  Proof. unfold cv_ok. now intros -> -> ->. Qed.
+
+  Lemma cv_ok_arr vs y : cv_ok (VArr vs) = true -> In y vs -> cv_ok y = true.
+  Proof.
+    intros H Hy. apply cv_ok_split in H. destruct H as (H1 & H2 & H3). cbn [dv_ok no_undef_entry fin_val] in *.
+    rewrite forallb_forall in H1, H2, H3. apply cv_ok_join; auto.
+  Qed.
+
+  Lemma cv_ok_hash es k x : cv_ok (VHash es) = true -> In (k, x) es ->
+    cv_ok k = true /\ cv_ok x = true /\ is_vundef x = false.
+  Proof.
+    intros H Hin. apply cv_ok_split in H. destruct H as (H1 & H2 & H3). cbn [dv_ok no_undef_entry fin_val] in *.
+    apply andb_true_iff in H1. destruct H1 as [H1 _]. apply andb_true_iff in H1. destruct H1 as [H1 _].
+    apply andb_true_iff in H1. destruct H1 as [_ H1].
+    rewrite forallb_forall in H1, H2, H3. specialize (H1 _ Hin). specialize (H2 _ Hin). specialize (H3 _ Hin).
+    cbn [fst snd] in *. apply andb_true_iff in H1. destruct H1 as [D1 D2].
+    apply andb_true_iff in H2. destruct H2 as [N0 N2]. apply andb_true_iff in N0. destruct N0 as [N0 N1].
+    apply andb_true_iff in H3. destruct H3 as [F1 F2]. apply negb_true_iff in N0.
+    repeat split; [apply cv_ok_join; assumption|apply cv_ok_join; assumption|assumption].
+  Qed.
+
+  Theorem detailed_complete_core : forall v, cv_ok v = true -> Q v.
+  Proof.
+    induction v using value_ind'; intros Hok; apply complete_wrap; intros T Hb Hw Hi.
+    - (* Undef *) destruct T; try discriminate Hb; cbn in Hi; try (dead Hi); reflexivity.
+    - (* Default *) destruct T; try discriminate Hb; cbn in Hi; try (dead Hi); reflexivity.
+    - (* Bool *) destruct T; try discriminate Hb; cbn in Hi; try (dead Hi); try reflexivity.
+      cbn. destruct v as [x|]; [|reflexivity]. cbn. apply eqb_prop in Hi. subst. apply eqb_reflx.
+    - (* Int *) destruct T; try discriminate Hb; cbn in Hi; try (dead Hi); try reflexivity. exact Hi.
+    - (* Float *) unfold cv_ok in Hok. cbn [dv_ok no_undef_entry fin_val andb] in Hok.
+      destruct T; try discriminate Hb; cbn in Hi; try (dead Hi); try reflexivity.
+      + exact Hi.
+      + (* ScalarData: its Float member is [-MaxFloat64, MaxFloat64] *)
+        cbn [infer_detailed infer recv flat flat_recv orb]. exact Hok.
+    - (* NaN *) unfold cv_ok in Hok. cbn in Hok. discriminate.
+    - (* Str *) destruct T; try discriminate Hb; cbn in Hi; try (dead Hi); try reflexivity; cbn [infer_detailed infer recv].
+      + exact Hi.
+      + exact Hi.
+      + destruct vs; [reflexivity|exact Hi].
+      + destruct rxs; [reflexivity|exact Hi].
+    - (* Regexp *) destruct T; try discriminate Hb; cbn in Hi; try (dead Hi); try reflexivity. exact Hi.
+    - (* Binary *) destruct T; try discriminate Hb; cbn in Hi; try (dead Hi); reflexivity.
+    - (* Arr *) destruct vs as [|x r].
+      + (* [] *) destruct T; try discriminate Hb; try (cbn in Hi; discriminate Hi).
+        * exact Hi.
+        * rewrite inst_array in Hi. apply andb_true_iff in Hi. destruct Hi as [Hsz _].
+          cbn [infer_detailed recv]. change (size_sub lo hi 0 0 = true) in Hsz. rewrite Hsz. reflexivity.
+        * rewrite inst_tuple in Hi. apply andb_true_iff in Hi. destruct Hi as [Hsz _].
+          cbn [infer_detailed recv]. change (size_sub lo hi 0 0 = true) in Hsz. rewrite Hsz. reflexivity.
+      + set (vs := x :: r) in *. rewrite Forall_forall in H.
+        assert (HQ : forall y, In y vs -> Q y) by (intros y Hy; apply (H y Hy); apply (cv_ok_arr vs y Hok Hy)).
+        unfold vs at 1. rewrite D_arr_cons. fold vs.
+        destruct T; try discriminate Hb; try (cbn in Hi; discriminate Hi).
+        * (* Collection *) exact Hi.
+        * (* Array *) rewrite inst_array in Hi. apply andb_true_iff in Hi. destruct Hi as [Hsz Hi].
+          cbn [recv]. change (size_sub lo hi (zlen vs) (zlen vs) = true) in Hsz. rewrite Hsz. cbn [andb].
+          unfold vs at 1. rewrite zlen_cons_pos. cbn [orb]. unfold vs. cbn [map]. fold vs.
+          change (forallb (A T) (map D vs) = true). apply forallb_forall. intros d Hd.
+          apply in_map_iff in Hd. destruct Hd as (y & <- & Hy). cbn [cwf] in Hw.
+          apply orb_true_iff in Hi. destruct Hi as [Hi|Hi].
+          -- apply is_any_eq in Hi. subst. apply asg_any_l.
+          -- rewrite forallb_forall in Hi. apply (HQ y Hy); auto.
+        * (* Tuple *) rewrite inst_tuple in Hi. apply andb_true_iff in Hi. destruct Hi as [Hsz Hi].
+          cbn [recv]. change (size_sub lo hi (zlen vs) (zlen vs) = true) in Hsz. rewrite Hsz. cbn [andb].
+          destruct ts as [|t0 ts]; [reflexivity|]. unfold vs at 1. rewrite zlen_cons_pos. cbn [orb].
+          unfold vs. cbn [map]. fold vs. change (tpairs A (t0 :: ts) (map D vs) = true).
+          cbn [cwf] in Hw. apply andb_true_iff in Hw. destruct Hw as [Htight Hw]. rewrite forallb_forall in Hw.
+          apply walk_tpairs; [|exact Hi|].
+          -- unfold size_sub in Hsz. apply andb_true_iff in Hsz. destruct Hsz as [Hlo _].
+             apply Z.leb_le in Hlo, Htight. unfold zlen in *. lia.
+          -- intros t y Ht Hy Hity. apply (HQ y Hy); auto.
+    - (* Hash *) destruct es as [|e r].
+      + (* {} *) destruct T; try discriminate Hb; try (cbn in Hi; discriminate Hi).
+        * exact Hi.
+        * rewrite inst_hash in Hi. apply andb_true_iff in Hi. destruct Hi as [Hsz _].
+          cbn [infer_detailed recv]. change (size_sub lo hi 0 0 = true) in Hsz. rewrite Hsz. reflexivity.
+        * (* Struct: every member optional *) rewrite inst_struct in Hi. apply andb_true_iff in Hi. destruct Hi as [Hall _].
+          cbn [hash_get] in Hall. cbn [infer_detailed recv andb].
+          assert (Hreq : struct_required ms = 0).
+          { unfold struct_required. rewrite filter_none; [reflexivity|].
+            intros m Hm. rewrite forallb_forall in Hall. rewrite (Hall m Hm). reflexivity. }
+          rewrite Hreq.
+          assert (Hf : forallb (fun m : str * (ty * ty) => key_optional (fst (snd m)) || A (snd (snd m)) TUnit) ms = true).
+          { apply forallb_forall. intros m Hm. rewrite forallb_forall in Hall. rewrite (Hall m Hm). reflexivity. }
+          assert (Hs : size_sub 0 (zlen ms) 0 0 = true).
+          { unfold size_sub. apply andb_true_iff. split; apply Z.leb_le; unfold zlen; lia. }
+          rewrite Hf, Hs. reflexivity.
+      + set (es := e :: r) in *. rewrite Forall_forall in H.
+        assert (HQ : forall k x, In (k, x) es -> Q k /\ Q x /\ is_vundef x = false).
+        { intros k x Hin. destruct (H _ Hin) as [Hk Hx]. destruct (cv_ok_hash es k x Hok Hin) as (H1 & H2 & H3).
+          cbn [fst snd] in *. auto. }
+        assert (Hdv : dv_ok rx (VHash es) = true) by (unfold cv_ok in Hok; bools; assumption).
+        cbn [dv_ok] in Hdv. bools. rename H0 into Hkeys, H3 into Hall, H2 into Hdk, H1 into Hdvs.
+        unfold es at 1. rewrite D_hash_cons. fold es.
+        destruct (forallb is_named es) eqn:Enamed.
+        * (* detailed type: Struct, every key required *)
+          pose proof (find_member_smember rx) as Hfm.
+          assert (Hnamed := Enamed). rewrite forallb_forall in Enamed.
+          assert (Hlen : zlen (map (smember rx) es) = zlen es) by (unfold zlen; now rewrite map_length).
+          assert (Hkeyreq : forall e0, In e0 es -> key_optional (fst (snd (smember rx e0))) = false).
+          { intros [k x] Hin. destruct (HQ _ _ Hin) as (_ & _ & Hx). cbn [smember fst snd].
+            destruct (A (D x) TUndef) eqn:Ea; [apply D_accepts_undef in Ea; subst; discriminate|]. reflexivity. }
+          assert (Hreq : struct_required (map (smember rx) es) = zlen es).
+          { unfold struct_required. rewrite filter_all; [exact Hlen|]. intros m Hm.
+            apply in_map_iff in Hm. destruct Hm as (e0 & <- & He0). rewrite (Hkeyreq _ He0). reflexivity. }
+          destruct T; try discriminate Hb; try (cbn in Hi; discriminate Hi).
+          -- (* Collection *) cbn [recv]. rewrite Hreq, Hlen. exact Hi.
+          -- (* Hash *) rewrite inst_hash in Hi. apply andb_true_iff in Hi. destruct Hi as [Hsz Hi].
+             cbn [recv]. rewrite Hreq, Hlen. change (size_sub lo hi (zlen es) (zlen es) = true) in Hsz. rewrite Hsz. cbn [andb].
+             cbn [cwf] in Hw. apply andb_true_iff in Hw. destruct Hw as [Hw1 Hw2].
+             apply forallb_forall. intros m Hm. apply in_map_iff in Hm. destruct Hm as ([k x] & <- & Hin).
+             rewrite forallb_forall in Hi. specialize (Hi _ Hin). cbn [fst snd] in Hi. apply andb_true_iff in Hi. destruct Hi as [Hik Hix].
+             destruct (is_named_key rx _ (Enamed _ Hin)) as (n & Hk & Hne & Hf). cbn [fst] in Hk. subst k.
+             destruct (smember_key rx (VStr n, x) n eq_refl Hne) as [Hak _]. rewrite Hak.
+             pose proof (smember_value rx (VStr n, x)) as Hsv. cbn [snd] in Hsv. rewrite Hsv.
+             destruct (HQ _ _ Hin) as (Qk & Qx & _). pose proof (Qk T1 Hw1 Hik) as Hk1. cbn [infer_detailed infer] in Hk1.
+             rewrite Hk1. rewrite (Qx T2 Hw2 Hix). reflexivity.
+          -- (* Struct *) rewrite inst_struct in Hi. apply andb_true_iff in Hi. destruct Hi as [Hmem Hcnt].
+             cbn [cwf] in Hw. apply andb_true_iff in Hw. destruct Hw as [Hdist Hw]. rewrite forallb_forall in Hw.
+             cbn [recv]. apply andb_true_iff. split.
+             ++ apply forallb_forall. intros m Hm. rewrite forallb_forall in Hmem. specialize (Hmem m Hm).
+                rewrite (Hfm (fst m) es Hnamed).
+                destruct (hash_get (is_vstr (fst m)) es) as [x|] eqn:Eg; [|exact Hmem].
+                destruct (hash_get_in' _ _ _ Eg) as (k & Hin). destruct (HQ _ _ Hin) as (_ & Qx & Hx).
+                destruct (A (D x) TUndef) eqn:Ea; [apply D_accepts_undef in Ea; subst; discriminate|].
+                specialize (Hw m Hm). apply andb_true_iff in Hw. destruct Hw as [Hw Hcw].
+                apply andb_true_iff in Hw. destruct Hw as [Hnn Hko].
+                cbv beta iota. apply andb_true_iff. split; [exact (key_ok_accepts _ _ Hko)|apply Qx; assumption].
+             ++ rewrite Hlen. erewrite filter_ext; [exact Hcnt|]. intros m. cbv beta.
+                rewrite (Hfm (fst m) es Hnamed). destruct (hash_get (is_vstr (fst m)) es); reflexivity.
+        * (* detailed type: Hash of variants *)
+          destruct T; try discriminate Hb; try (cbn in Hi; discriminate Hi).
+          -- exact Hi.
+          -- rewrite inst_hash in Hi. apply andb_true_iff in Hi. destruct Hi as [Hsz Hi].
+             cbn [recv]. change (size_sub lo hi (zlen es) (zlen es) = true) in Hsz. rewrite Hsz. cbn [andb].
+             unfold es at 1. rewrite zlen_cons_pos. cbn [orb].
+             cbn [cwf] in Hw. apply andb_true_iff in Hw. destruct Hw as [Hw1 Hw2]. rewrite forallb_forall in Hi.
+             apply andb_true_iff. split; apply asg_mk_variant_intro; intros u Hu; apply udedup_incl in Hu;
+               apply in_map_iff in Hu; destruct Hu as ([k x] & <- & Hin); specialize (Hi _ Hin); cbn [fst snd] in Hi;
+               apply andb_true_iff in Hi; destruct Hi as [Hik Hix]; destruct (HQ _ _ Hin) as (Qk & Qx & _); auto.
+          -- (* Struct: every entry would have to be a member, but some key is not a non-empty string *)
+             exfalso. rewrite inst_struct in Hi. apply andb_true_iff in Hi. destruct Hi as [_ Hcnt].
+             cbn [cwf] in Hw. apply andb_true_iff in Hw. destruct Hw as [Hdist Hw]. rewrite forallb_forall in Hw.
+             pose proof (cover fst ms es Hdist Hkeys Hcnt) as Hcov.
+             assert (forallb is_named es = true); [|congruence].
+             apply forallb_forall. intros [k x] Hin. destruct (Hcov k x Hin) as (m & Hm & -> & _).
+             specialize (Hw m Hm). apply andb_true_iff in Hw. destruct Hw as [Hw _].
+             apply andb_true_iff in Hw. destruct Hw as [Hnn _]. unfold is_named.
+             destruct m as [n kv]. cbn [fst] in *. destruct n; [discriminate Hnn|reflexivity].
+    - (* Type *) destruct T; try discriminate Hb; cbn in Hi; try (dead Hi). exact Hi.
+    - (* Sensitive *) destruct T; try discriminate Hb; try (cbn in Hi; discriminate Hi). cbn [inst] in Hi.
+      cbn [infer_detailed recv]. cbn [cwf] in Hw. apply IHv; [|assumption|assumption].
+      unfold cv_ok in *. cbn [dv_ok no_undef_entry fin_val] in Hok. exact Hok.
+    - (* Other *) unfold cv_ok in Hok. cbn in Hok. discriminate.
+  Qed.
+End DetailedComplete.
